@@ -91,6 +91,7 @@ func sweepMain(args []string) int {
 	jobs := fs.Int("j", runtime.NumCPU(), "parallel workers")
 	list := fs.Bool("list", false, "only list the cases (id, flags, grammar) and exit")
 	keep := fs.Bool("keep", false, "keep scratch directories (debugging)")
+	tier := fs.String("tier", "", "run only the cases whose tier name starts with this prefix")
 	fs.Parse(args)
 
 	e, ok := scopeSpecs(*scope)
@@ -106,6 +107,9 @@ func sweepMain(args []string) int {
 	all := buildCases(e.specs, *seed)
 	var cases []*Case
 	for i, c := range all {
+		if *tier != "" && !strings.HasPrefix(c.Spec.Tier, *tier) {
+			continue
+		}
 		if *only != "" {
 			if c.ID == *only {
 				cases = append(cases, c)
@@ -429,7 +433,7 @@ func runCase(cfg *sweepCfg, c *Case) (o caseOutcome) {
 
 	// 4b..e
 	before := len(o.fails)
-	for _, m := range compareTables(g, ref, em) {
+	for _, m := range compareTables(g, ref, em, c.Spec.lexTokens()) {
 		fail(m.kind, "%s", m.msg)
 	}
 	tablesOK := len(o.fails) == before
@@ -508,7 +512,7 @@ func (c *collector) result() []mismatch {
 
 // compareTables checks token map, productions table, isomorphism, action,
 // goto and canRecover entries of the emitted tables against the reference.
-func compareTables(g *Grammar, ref *Automaton, em *Emitted) []mismatch {
+func compareTables(g *Grammar, ref *Automaton, em *Emitted, lexTokens []string) []mismatch {
 	col := newCollector()
 
 	// token.TokMap
@@ -545,7 +549,7 @@ func compareTables(g *Grammar, ref *Automaton, em *Emitted) []mismatch {
 		termCol[t] = p
 		colTerm[p] = t
 	}
-	for _, n := range termNames {
+	for _, n := range lexTokens {
 		if _, ok := pos[n]; !ok {
 			col.add("tokmap", "token %q of the lexical part is missing from typeMap %q", n, tm)
 		}
